@@ -37,6 +37,7 @@ fn main() {
         });
     }
     let code = match args[1].as_str() {
+        "validate-sched" => conc_checks::validate_scheduler(args[2].parse().unwrap_or(2000)),
         "C18-one" => faults::run_c18_one(&args[2], args.get(3).map(|s| s.as_str()).unwrap_or("")),
         "replay" => {
             let doc: serde_json::Value = std::fs::read_to_string(&args[2])
